@@ -88,6 +88,7 @@ def cases(tier, seed=0):
   cs += _ea.written_first_cases('setfl', tier)
   cs += _ea.energy_override_cases('setfl', tier)
   cs += _ea.cutoff_arg_cases('setfl', tier)
+  cs += _ea.long_label_cases('setfl', tier)
   return cs
 
 
